@@ -3,6 +3,8 @@
 package c15
 
 import (
+	"context"
+	"errors"
 	"fmt"
 	"net"
 	"os"
@@ -16,6 +18,7 @@ import (
 	"pgregory.net/rapid"
 
 	gnet "github.com/panjf2000/gnet/v2"
+	errorx "github.com/panjf2000/gnet/v2/pkg/errors"
 	"github.com/panjf2000/gnet/v2/verifx/fx"
 	"github.com/panjf2000/gnet/v2/verifx/vstat"
 )
@@ -26,8 +29,8 @@ type lcase struct {
 }
 
 type lstep struct {
-	Kind string // open, close
-	Arg  int    // open: client address slot (SAH); close: index into the live list
+	Kind string // open, close, register
+	Arg  int    // open: client address slot (SAH); close: index into the live list; register: odd = a differing net.Addr rides in the context too
 }
 
 func (c lcase) String() string {
@@ -101,6 +104,20 @@ func runLB(lc lcase) (fails []string, infra string, accepts int) {
 	var live []*lconn
 	dir := fx.TmpDir()
 	var cseq int32
+	// a plain target for Engine.Register (Source-Addr-Hash): every connection registered to it has the same remote address
+	var target net.Listener
+	var held []net.Conn
+	var hmu sync.Mutex
+	defer func() {
+		if target != nil {
+			target.Close()
+			hmu.Lock()
+			for _, c := range held {
+				c.Close()
+			}
+			hmu.Unlock()
+		}
+	}()
 	for _, st := range lc.Steps {
 		switch st.Kind {
 		case "open":
@@ -177,6 +194,74 @@ func runLB(lc lcase) (fails []string, infra string, accepts int) {
 			_, _ = p.Write([]byte("x"))
 			var one [1]byte
 			_, _ = p.Read(one[:])
+		case "register":
+			// Engine.Register hands the connection to the loop the policy picks for the connection's
+			// remote address - also when the context carries a net.Addr of its own next to the net.Conn
+			// (documented: the net.Conn precedes the net.Addr)
+			if target == nil {
+				tl, err := net.Listen("tcp4", fx.Host("tcp4")+":0")
+				if err != nil {
+					return s.fails, "target listener: " + err.Error(), accepts
+				}
+				target = tl
+				go func() {
+					for {
+						c, err := tl.Accept()
+						if err != nil {
+							return
+						}
+						hmu.Lock()
+						held = append(held, c)
+						hmu.Unlock()
+					}
+				}()
+			}
+			c := &lconn{s: s, id: 1000 + accepts, closed: make(chan struct{})}
+			nc, err := net.Dial("tcp4", target.Addr().String())
+			if err != nil {
+				return s.fails, "dial target: " + err.Error(), accepts
+			}
+			ctx := gnet.NewNetConnContext(gnet.NewContext(context.Background(), fx.ConnHooks(c)), nc)
+			if st.Arg%2 == 1 {
+				ctx = gnet.NewNetAddrContext(ctx, &net.TCPAddr{IP: net.IPv4(10, 9, byte(st.Arg), byte(accepts)), Port: 1000 + 7*st.Arg + accepts})
+			}
+			ch, err := e.Eng.Register(ctx)
+			for try := 0; err != nil && errors.Is(err, errorx.ErrEmptyEngine) && try < 2000; try++ {
+				// OnBoot has run, the event-loops are registered a moment later: not running yet
+				time.Sleep(time.Millisecond)
+				ch, err = e.Eng.Register(ctx)
+			}
+			if err != nil {
+				nc.Close()
+				s.failf("lb-register", "Engine.Register on a running engine: %v", err)
+				return s.fails, "", accepts
+			}
+			select {
+			case r := <-ch:
+				if r.Err != nil || r.Conn == nil {
+					s.failf("lb-register", "Engine.Register delivered {%v, %v}", r.Conn, r.Err)
+					return s.fails, "", accepts
+				}
+			case <-time.After(8 * time.Second):
+				s.failf("lb-register", "Engine.Register delivered no result within 8s")
+				return s.fails, "", accepts
+			}
+			l := c.loop
+			if _, seen := idx[l]; !seen {
+				idx[l] = len(order)
+				order = append(order, l)
+				goids[l] = c.goid
+				if len(order) > n {
+					s.failf("lb-foreign", "connections were spread over %d loops, the engine has %d", len(order), n)
+				}
+			}
+			if c.remote != "" {
+				if prev, ok := byRemote[c.remote]; ok && prev != l {
+					s.failf("lb-sah", "remote address %q (registered connections to one target) was served by two different loops", c.remote)
+				}
+				byRemote[c.remote] = l
+			}
+			count[l]++
 		case "close":
 			if len(live) == 0 {
 				continue
@@ -226,8 +311,10 @@ func TestC15Sessions(t *testing.T) {
 		}
 		ns := rapid.IntRange(2, 4*lc.Cfg.Loops+6).Draw(t, "steps")
 		for i := 0; i < ns; i++ {
-			if rapid.IntRange(0, 3).Draw(t, "kind") == 0 {
+			if k := rapid.IntRange(0, 3).Draw(t, "kind"); k == 0 {
 				lc.Steps = append(lc.Steps, lstep{"close", rapid.IntRange(0, 40).Draw(t, "which")})
+			} else if k == 1 && lc.Cfg.LB == gnet.SourceAddrHash && rapid.Bool().Draw(t, "register") {
+				lc.Steps = append(lc.Steps, lstep{"register", rapid.IntRange(0, 9).Draw(t, "hint")})
 			} else {
 				lc.Steps = append(lc.Steps, lstep{"open", rapid.IntRange(0, 3).Draw(t, "slot")})
 			}
